@@ -110,22 +110,8 @@ def run(ctx, host=None):
     # ---------------------------------------------------------------- R1
     cont = prog.cls('container:Container')
     nsite = 0
-    # per-pack accumulators (`defaultdict(list)`) are only ever grown element-wise: a batch, a page or the other lookup strategy must never replace what an
-    # earlier one found for the same pack (dict.update / item assignment keep only the last group per key)
-    for q in SITES:
-        fn0 = prog.fn(q)
-        accs = {n.targets[0].id for n in walk_local(fn0.node) if isinstance(n, ast.Assign) and len(n.targets) == 1 and isinstance(n.targets[0], ast.Name)
-                and isinstance(n.value, ast.Call) and norm(n.value.func).split('.')[-1] == 'defaultdict' and n.value.args and norm(n.value.args[0]) in ('list', 'set')}
-        for n in walk_local(fn0.node):
-            w = None
-            if isinstance(n, ast.Call) and isinstance(n.func, ast.Attribute) and isinstance(n.func.value, ast.Name) and n.func.value.id in accs and n.func.attr in ('update', 'setdefault', '__setitem__'):
-                w = n
-            elif isinstance(n, ast.Assign) and any(isinstance(t, ast.Subscript) and isinstance(t.value, ast.Name) and t.value.id in accs for t in n.targets):
-                w = n
-            if w is not None:
-                chk.bad(R1, q, norm(w)[:100], 'a per-pack accumulator is filled by replacing whole entries (dict.update / item assignment) instead of appending rows: when the rows of one pack arrive in '
-                        'more than one group (several IN batches, several pages) only the last group survives, so objects that single-key calls find are reported missing by the bulk call',
-                        where=f'{fn0.module.relpath}:{w.lineno}')
+    from .common import accumulators_grow_only
+    accumulators_grow_only(ctx, chk, R1, SITES)
     seen_fns = set()
     for q in SITES:
         fn0 = prog.fn(q)
